@@ -66,7 +66,8 @@ Stuck == (m.st # "oom" /\ ~ENABLED TraceNext /\ ~(Finished /\ Outcome)) =>
             Report("STUCK", [event |-> IF More THEN E ELSE [e |-> "end", exit |-> C.exit],
                              top |-> IF m.acts = <<>> THEN [none |-> TRUE]
                                      ELSE [fi |-> TopA(m).fi, ip |-> TopA(m).ip, od |-> Len(TopA(m).ops), sp |-> TopA(m).sp],
-                             fd |-> Len(m.frames), ad |-> Len(m.acts), pc |-> pc, printed |-> Len(m.pr)])
+                             fd |-> Len(m.frames), ad |-> Len(m.acts), pc |-> pc, printed |-> Len(m.pr),
+                             shown |-> IF m.acts = <<>> \/ TopA(m).ops = <<>> THEN "" ELSE IF HasFn(m, TopV(TopA(m)), 3) THEN "<not compared>" ELSE ShowV(m, TopV(TopA(m)))])
 
 (* (2) compiler vs source semantics, on the machine alone *)
 Xlate ==
